@@ -624,11 +624,19 @@ func excLookupE(m map[string]excEntry, key string) (excEntry, bool) {
 	}
 	// the same construct with a quantity computed by another formula (an index i of an index loop where a range
 	// loop had rangeindex+1, (n+1)>>1 for (n>>1)+(n&1)): arithmetic over anonymous operands collapsed
-	{
-		nk := eraseArith(key)
+	// Only for allocation sizes (P4: "the buffer is 2 + ceil(bits/8) bytes" however the rounding is spelt). For
+	// index and slice expressions the arithmetic IS the construct: hashes[(i-off)-1] and hashes[(i-off)-0] must not
+	// share an exception (the one-token mutation battery caught exactly that). There only the go/ssa spelling of a
+	// range loop's index, (hidden counter + 1), is identified with a plain loop counter.
+	norm := eraseArith
+	if !strings.Contains(key, " P4 ") {
+		norm = func(k string) string { return strings.ReplaceAll(eraseLoose(k), "(_+1)", "_") }
+	}
+	if os.Getenv("TONGO_NO_ERASEARITH") == "" {
+		nk := norm(key)
 		best := ""
 		for k := range m {
-			if !strings.HasPrefix(k, "re:") && eraseArith(k) == nk && (best == "" || k < best) {
+			if !strings.HasPrefix(k, "re:") && norm(k) == nk && (best == "" || k < best) {
 				best = k
 			}
 		}
